@@ -5,10 +5,11 @@ V = os.path.dirname(os.path.dirname(os.path.abspath(__file__)))
 props = [json.loads(l) for l in open(os.path.join(V, "properties.jsonl"))]
 checks, na = [], []
 pending = json.load(open(os.path.join(V, "tools", "pending.json"))) if os.path.exists(os.path.join(V, "tools", "pending.json")) else {}
+ready = set(open(os.path.join(V, "tools", "ready.txt")).read().split())
 for p in props:
     pid = p["id"]
     hp = os.path.join(V, "harness", pid.lower(), "harness.json")
-    if not os.path.exists(hp):
+    if not os.path.exists(hp) or pid not in ready:
         na.append({"property_id": pid, "reason": pending.get(pid, "harness not built yet in this round (planned in DESIGN.md section 6); not claimed until its check exists")})
         continue
     h = json.load(open(hp))
